@@ -36,6 +36,12 @@ def t_mutate(*a, **k):
     return seen
 
 
+def t_slowecho(*a, **k):
+    import time
+    time.sleep(0.06)
+    return ['echo', list(a), sorted(k.items(), key=lambda kv: kv[0])]
+
+
 def t_none(*a, **k):
     return None
 
@@ -54,7 +60,7 @@ def t_large(*a, **k):
     return ['large', k.get('uid'), 'x' * 70000]
 
 
-TARGETS = {'echo': t_echo, 'mutate': t_mutate, 'none': t_none, 'falsy': t_falsy, 'large': t_large, 'raise_on': t_raise_on}
+TARGETS = {'echo': t_echo, 'slowecho': t_echo, 'mutate': t_mutate, 'none': t_none, 'falsy': t_falsy, 'large': t_large, 'raise_on': t_raise_on}
 
 
 def model_value(tname, defaults, default_kw, extra, extra_kw):
@@ -92,6 +98,43 @@ def case(spec, log):
         def norm(v):
             return v
 
+        sched = {'closed': False, 'held': 0}
+        if spec.get('adversarial'):
+            # worst-case scheduling of the consumer: once the worker has been closed (it will finish and die by itself),
+            # the consuming thread is not scheduled again after any of the library's own steps (liveness check,
+            # non-blocking / blocking read of the result endpoint) until the worker is really gone
+            import time as _t
+            from vlib.common import pid_running
+            own = w.pid == os.getpid()
+            child = w._child
+
+            def gone():
+                return (not child.is_alive()) if own else (not pid_running(w.pid))
+
+            def hold():
+                if sched['closed'] and not gone():
+                    sched['held'] += 1
+                    t0 = _t.monotonic()
+                    while _t.monotonic() - t0 < 8 and not gone():
+                        _t.sleep(0.002)
+                    _t.sleep(0.05)      # the last results and the end marker are in the pipe by now
+
+            def wrap(obj, name):
+                orig = getattr(obj, name)
+
+                def wrapped(*a, **k):
+                    try:
+                        return orig(*a, **k)
+                    finally:
+                        hold()
+                setattr(obj, name, wrapped)
+
+            wrap(w, 'is_alive')
+            ep = w.results_endpoint
+            for nm in ('get_nowait', 'poll'):
+                if hasattr(ep, nm):
+                    wrap(ep, nm)
+
         for i, op in enumerate(spec['ops']):
             name = op[0]
             if name == 'enq':
@@ -108,6 +151,7 @@ def case(spec, log):
                 log.ev('op', i=i, op='call', outcome=('hang' if r is HANG else 'raised:' + type(r.exc).__name__ if isinstance(r, Raised) else 'value'), value=(None if r is HANG or isinstance(r, Raised) else r))
             elif name == 'close':
                 r = bounded('close', lambda: w.close(), 30)
+                sched['closed'] = True
                 log.ev('op', i=i, op='close', outcome=('ok' if r is None else 'hang' if r is HANG else 'raised:' + type(r.exc).__name__))
             elif name == 'wait':
                 r = bounded('wait', lambda: w.wait(), 45)
@@ -115,6 +159,9 @@ def case(spec, log):
             if r is HANG:
                 return {'fatal': 'hang at op %d' % i}
         # epilogue: wait, drain, check the end of the stream
+        sched['closed'] = False     # no more delays: wait() itself closes the worker
+        if spec.get('adversarial'):
+            log.ev('adversarial', consumer_held=sched['held'])
         r = bounded('final_wait', lambda: w.wait(), 45)
         log.ev('final_wait', outcome=('hang' if r is HANG else repr(r) if not isinstance(r, Raised) else 'raised:' + type(r.exc).__name__))
         if r is HANG:
@@ -309,10 +356,28 @@ def run(tier):
     chk = Check('C05', 'exploration', tier,
                 'seeded histories (<= 8 enqueues) over {enqueue(args, kwargs), next_result, results_iter(n), call, close, wait, enqueue-after-close} x default args (list or tuple, length 0-3) x default kwargs '
                 'x per-enqueue arity (fewer/equal/more than defaults) x targets (echo, argument-mutating, None/falsy/70 KB results) x thread/process/remote; every enqueue carries a unique id; '
-                'oracle = sequential model (merge rule, pristine defaults); distinct non-trivial = distinct histories with >= 1 enqueue')
+                'a share of the histories reads after close() under worst-case scheduling of the consumer (held after each liveness check / endpoint probe until the worker is gone); oracle = sequential model (merge rule, pristine defaults); distinct non-trivial = distinct histories with >= 1 enqueue')
     r = rng('c05')
     n = 700 if thorough else 50
     jobs = [gen_history(r, cls) for cls in CLASSES for _ in range(n)]
+    # results consumed while the worker is finishing: close() first, then read under worst-case scheduling of the consumer
+    for cls in CLASSES:
+        for k in range(12 if thorough else 4):
+            nin = r.randint(1, 5)
+            ops = [['enq', [r.choice(VALS)], {'uid': u + 1}] for u in range(nin)] + [['close']]
+            left = nin
+            while left:
+                if r.random() < 0.5:
+                    ops.append(['next'])
+                    left -= 1
+                else:
+                    m = r.randint(1, left)
+                    ops.append(['iter', m])
+                    left -= m
+            jobs.append(dict(cls=cls, defaults=[r.choice(VALS)], tuple_defaults=False, default_kw={}, target=r.choice(['slowecho', 'slowecho', 'echo']), ops=ops, adversarial=True))
+    for j in jobs:
+        if not j.get('adversarial') and any(o[0] == 'close' for o in j['ops']) and r.random() < 0.5:
+            j['adversarial'] = True
     wd = workdir('c05')
 
     def one(ij):
